@@ -452,7 +452,7 @@ def same_name_types_stream(ctx, drv):
 # =================================================================================================
 # growth round 5: extended streams (model: Model/SerializeSkipExt.lean, driver ops roundtripX / history / ptychoskip)
 # =================================================================================================
-ALLTYPES = dict(TYPES, SD=cx.SD, **cx.XTYPES)
+ALLTYPES = dict(TYPES, SD=cx.SD, **cx.XTYPES, **({"AT": cx.AT} if cx.AT is not None else {}))
 XCLASSES = ("SA", "SB", "SC", "SD", "SD")
 XPOOL = SMALL_NAMES
 
@@ -521,7 +521,7 @@ def check_case_x(ctx, drv, recipe, save_arg, load_arg, store, idx, form="list", 
     ctx.count()
     r = run_real_x(obj, store, cx.py_arg(save_arg, ALLTYPES, form),
                    cx.py_arg(load_arg, ALLTYPES, load_form or ("tuple" if form == "list" else "list")), idx)
-    m = drv.ask({"op": "roundtripX", "v": spec, "skip_save": save_arg, "skip_load": load_arg})
+    m = drv.ask({"op": "roundtripX", "v": spec, "skip_save": save_arg, "skip_load": load_arg, "attrs": cx.ATTRS_FIELDS})
     if "driver" in str(m.get("err", "")):
         raise RuntimeError(m)
     # ---- correspondence, stage by stage
@@ -717,6 +717,22 @@ def fixed_block_g6(ctx, drv):
                ld("p1", seq([])), ld("p3", seq(["keep"]))]
         run_history(ctx, drv, [t1], ops, store, f"g6_{k}")
         k += 1
+    # attrs classes (`__attrs_attrs__` branch of _recursive_save / _recursive_load): only declared fields are items
+    if cx.AT is None:
+        ctx.extra["attrs-stream"] = "skipped: the attrs package is not importable"
+    else:
+        for variant in (0, 1):
+            at = cx.attrs_tree(variant)
+            for sa, la, form in ((seq(["raw"]), seq([]), "list"), (seq([]), seq(["raw"]), "tuple"), (seq(["raw", "scratch"], ["int"]), seq(["note"]), "list"),
+                                 (seq([], ["float"]), seq(["tmp", "count"]), "seqsub"), ({"bare_type": "AT"}, seq([]), "list"), (seq([]), seq([]), "list"),
+                                 (seq([]), seq(["gain", "deep"]), "list"), (seq(["lst", "tmp"]), seq([]), "tuple")):   # names that are no fields of the root's class
+                check_case_x(ctx, drv, at, sa, la, ("dir", "zip")[k % 2], f"g6_{k}", form)
+                k += 1
+        sv = lambda path, skip, ow=False: {"k": "save", "obj": 0, "path": path, "overwrite": ow, "bad_level": False, "skip": skip, "pyobj": "L"}  # noqa: E731
+        run_history(ctx, drv, [cx.attrs_tree(1)], [sv("p0", seq(["raw"])), {"k": "load", "path": "p0", "skip": seq([])},
+                                                   sv("p0", seq(["count"], ["ndarray"]), True), {"k": "load", "path": "p0", "skip": seq(["scratch", "note"])},
+                                                   sv("p0", seq([]), False), {"k": "load", "path": "p0", "skip": seq([])}], "zip", f"g6_{k}")
+        k += 1
     ctx.dist["x:g6-fixed-block-cases"] += k
 
 
@@ -789,7 +805,7 @@ def run_history(ctx, drv, pool_recipes, ops, store, idx):
                                       f"(call {len(outs) - 1} of {len(ops)})", case, observed=sc.short(d[2]), required=sc.short(d[1]))
     finally:
         shutil.rmtree(base, ignore_errors=True)
-    m = drv.ask({"op": "history", "pool": specs, "ops": ops})
+    m = drv.ask({"op": "history", "pool": specs, "ops": ops, "attrs": cx.ATTRS_FIELDS})
     if "ok" not in m:
         raise RuntimeError(m)
     for j, (a, b) in enumerate(zip(m["ok"], outs)):
